@@ -38,7 +38,8 @@
                         order of the key), wsize (bytes the item adds to a proto EvidenceList),
                         basic (ValidateBasic passes, i.e. the item can reach the pool at all)
    c.pairs[q]           conflicting vote pairs consensus may report: h, val, dv (the item
-                        NewDuplicateVoteEvidence yields from the chain facts of h), late (what
+                        NewDuplicateVoteEvidence yields from the chain facts of h), t, r, blkA,
+                        blkB (vote type, round, the two blocks), late (what
                         it would yield with the validator set of h+1: an item id, = dv when the
                         sets agree on the signer, "nil" when the signer is not in that set)
 
@@ -47,7 +48,10 @@
    p.committed          keys stored under the committed prefix
    p.list               the clist (ids, in order)
    p.size               the atomic counter evidenceSize (what Size() reports)
-   p.buffer             consensusBuffer (pair ids)
+   p.buffer             consensusBuffer (pair ids, in order, repeats possible); a pair id stands for
+                        (vote type, height, round, validator, {blockA, blockB})
+   p.reported           ghost: the SET of pairs consensus reported since the last Update / start
+                        (what must become pending evidence, whatever the buffer did with it)
    p.height             pool.state.LastBlockHeight      (LastBlockTime = c.time[p.height])
    p.pruneH, p.pruneT   pruningHeight / pruningTime
    p.tip                height of the block store;  p.saved: height of the saved sm.State
@@ -68,6 +72,8 @@ CONSTANTS
   Weak_PendingSkipsExpiry, \* CheckEvidence trusts already-pending evidence without an expiry check (code before the fix)
   Weak_LateAddUnchecked,   \* the store step of AddEvidence does not re-check the committed marker (code before the fix)
   Weak_ExpiryUsesStartupParams, \* isExpired / pruning keep the age limits NewPool saw; Update never refreshes them
+  Weak_BufferDedupIgnoresVoteType, \* ReportConflictingVotes drops a pair when one with the same height, round,
+                               \* validator and blocks is buffered -- although the vote TYPE differs
   Weak_BufferUsesCurrentValSet \* late conflicting votes (height below the one just decided) become evidence with the
                                \* validator set of the NEW state instead of the set of their own height
 
@@ -270,7 +276,15 @@ CheckFrom(c, p, ids, i) ==
 CheckEvidence(c, p, ids) == CheckFrom(c, p, ids, 1)
 
 \* ------------------------------------------------------------------ ReportConflictingVotes
-Report(c, p, q) == [p EXCEPT !.buffer = Append(@, q)]
+\* every look-up of logged data is guarded: an id the context does not know never is a TLC error
+KnownPair(c, q) == q \in DOMAIN c.pairs
+SameButType(c, q1, q2) ==
+  /\ KnownPair(c, q1) /\ KnownPair(c, q2)
+  /\ LET a == c.pairs[q1] b == c.pairs[q2] IN
+     a.h = b.h /\ a.r = b.r /\ a.val = b.val /\ {a.blkA, a.blkB} = {b.blkA, b.blkB}
+Report(c, p, q) ==
+  LET drop == Weak_BufferDedupIgnoresVoteType /\ \E i \in DOMAIN p.buffer : SameButType(c, p.buffer[i], q)
+  IN [p EXCEPT !.buffer = IF drop THEN @ ELSE Append(@, q), !.reported = @ \cup {q}]
 
 \* ------------------------------------------------------------------ Update
 \* processConsensusBuffer(state): votes of height <= the new height become evidence with the
@@ -283,10 +297,11 @@ Report(c, p, q) == [p EXCEPT !.buffer = Append(@, q)]
 FlushItem(c, q, to) == IF Weak_BufferUsesCurrentValSet /\ q.h < to THEN q.late ELSE q.dv
 FlushPanics(c, p, to) ==
   Weak_BufferUsesCurrentValSet /\ ~Weak_BufferDropped
-  /\ \E i \in DOMAIN p.buffer : c.pairs[p.buffer[i]].h < to /\ c.pairs[p.buffer[i]].late = "nil"
+  /\ \E i \in DOMAIN p.buffer : KnownPair(c, p.buffer[i]) /\ c.pairs[p.buffer[i]].h < to /\ c.pairs[p.buffer[i]].late = "nil"
 RECURSIVE FlushFrom(_, _, _, _)
 FlushFrom(c, p, to, i) ==
   IF i > Len(p.buffer) THEN p
+  ELSE IF ~KnownPair(c, p.buffer[i]) THEN FlushFrom(c, p, to, i + 1)
   ELSE LET q  == c.pairs[p.buffer[i]]
            id == FlushItem(c, q, to)
            k  == KeyOf(c, id)
@@ -295,7 +310,7 @@ FlushFrom(c, p, to, i) ==
           ELSE LET r == AddPending(c, p, id, FALSE) IN
                FlushFrom(c, [r.p EXCEPT !.list = Append(@, id)], to, i + 1)
 ProcessBuffer(c, p, to) ==
-  [(IF Weak_BufferDropped THEN p ELSE FlushFrom(c, p, to, 1)) EXCEPT !.buffer = << >>]
+  [(IF Weak_BufferDropped THEN p ELSE FlushFrom(c, p, to, 1)) EXCEPT !.buffer = << >>, !.reported = {}]
 
 \* markEvidenceAsCommitted
 MarkCommitted(c, p, ids) ==
@@ -330,7 +345,7 @@ PendingEvidence(c, p, mb) ==
 
 \* ------------------------------------------------------------------ NewPool (restart)
 Restart(c, p) ==
-  LET p1 == [p EXCEPT !.height = p.saved, !.startH = IF Weak_ExpiryUsesStartupParams THEN p.saved ELSE @, !.buffer = << >>, !.inflight = {}, !.list = << >>]
+  LET p1 == [p EXCEPT !.height = p.saved, !.startH = IF Weak_ExpiryUsesStartupParams THEN p.saved ELSE @, !.buffer = << >>, !.reported = {}, !.inflight = {}, !.list = << >>]
       p2 == Prune(c, p1)
   IN IF Weak_NoReloadOnRestart THEN [p2 EXCEPT !.size = 0]
      ELSE [p2 EXCEPT !.size = Cardinality(p2.pending), !.list = PendingSeq(c, p2)]
@@ -338,7 +353,7 @@ Restart(c, p) ==
 InitPool(c) ==
   [pending |-> {}, committed |-> {}, list |-> << >>, size |-> 0, buffer |-> << >>,
    height |-> c.H0, pruneH |-> c.H0, pruneT |-> TimeAt(c, c.H0), tip |-> c.H0, saved |-> c.H0,
-   inflight |-> {}, startH |-> c.H0]
+   inflight |-> {}, startH |-> c.H0, reported |-> {}]
 
 \* ------------------------------------------------------------------ one step, by action descriptor
 \* a.name in Add | Check | Report | Update | Pending | Restart | AddBegin | AddEnd
@@ -407,7 +422,7 @@ StepViol(c, p, q, a) ==
   \* ... and that evidence is the one the reported votes prove against the validator set and
   \* block time of THEIR height (also for votes reported late, after the set has changed)
 \cup (IF a.name = "Update" /\ \E x \in new :
-            \/ ~\E i \in DOMAIN p.buffer : c.pairs[p.buffer[i]].dv = x /\ c.pairs[p.buffer[i]].h <= q.height
+            \/ ~\E r \in p.reported \cup Range(p.buffer) : KnownPair(c, r) /\ c.pairs[r].dv = x /\ c.pairs[r].h <= q.height
             \/ ~Proves(c, q, x)
         THEN {"AdmitOnlyAdmissible"} ELSE {})
   \* a call that panics neither admits / refuses evidence nor turns reported votes into evidence
@@ -433,11 +448,14 @@ StepViol(c, p, q, a) ==
         THEN {"ExpiryBoth"} ELSE {})
 \cup (IF a.name = "Restart" /\ \E k \in gone : ~expiredAtQ(k) THEN {"SurvivesRestart"} ELSE {})
   \* conflicting votes of decided heights become pending evidence (or are already used up / out of date)
-\cup (IF a.name = "Update" /\ \E i \in DOMAIN p.buffer :
-            LET pr == c.pairs[p.buffer[i]] k == KeyOf(c, pr.dv) IN
-            /\ pr.h <= q.height
-            /\ ~IsPendingKey(c, q, k) /\ k \notin q.committed
-            /\ ~ExpiredBoth(c, q.height, pr.h, TimeAt(c, pr.h))
+  \* -- EVERY DISTINCT pair reported: a prevote pair and a precommit pair of one validator in one
+  \*    round are two pieces of evidence; repeats of one pair are one
+\cup (IF a.name = "Update" /\ \E r \in p.reported \cup Range(p.buffer) :
+            KnownPair(c, r) /\
+            LET pr == c.pairs[r] k == KeyOf(c, pr.dv) IN
+              /\ pr.h <= q.height
+              /\ ~IsPendingKey(c, q, k) /\ k \notin q.committed
+              /\ ~ExpiredBoth(c, q.height, pr.h, TimeAt(c, pr.h))
         THEN {"BufferFlushed"} ELSE {})
   \* committed markers only grow, and only by the block's evidence
 \cup (IF ~(p.committed \subseteq q.committed) THEN {"CommittedKept"} ELSE {})
